@@ -6,7 +6,7 @@
 //	view <sc> <Iv>                           the SlidingWindowMetric used by `viewsum` (default 1 x I)
 //	thread <tid> <clock-ms> <op> [; <op>]…   thread of the next round, started at that clock reading
 //	                                         ops: add <ev> <amt> | conc <c> | count <ev> | viewsum <ev>
-//	sched <tid | tick:<ms>>…                 run the round => res=[…|…] pts=[…|…] final=[…] clock=<ms>
+//	sched <tid | tick:<ms>>…                 run the round => [round] res=[…|…] pts=[…|…] final=[…] clock=<ms>
 //	stress <writers> <readers> <adds> <n> <I> <seed>   => ok | bad …
 package c09
 
@@ -198,7 +198,7 @@ func (it *Interp) round(es []sched.Entry) string {
 		ps[i] = strings.Join(rep.Threads[i].Points, ",")
 	}
 	now := it.clk.CurrentTimeMillis()
-	return fmt.Sprintf("res=[%s] pts=[%s] final=%s clock=%d", strings.Join(rs, "|"), strings.Join(ps, "|"), it.final(now), now)
+	return fmt.Sprintf("[round] res=[%s] pts=[%s] final=%s clock=%d", strings.Join(rs, "|"), strings.Join(ps, "|"), it.final(now), now)
 }
 
 // final prints the valid buckets at `now`, read without refresh (no state change).
